@@ -4,7 +4,7 @@ LEVEL = "proof"
 FUNCTIONS = []
 TRUSTED = ["the derivative-based reference semantics in runtime/h_gsm.py"]
 ASSUMPTIONS = []
-BOUND = 'every shipped header and follow-up automaton (captured from the real extract_headers) x every configuration reachable with nesting depth <= 3 (thorough 5) x 171 token classes (9 token kinds x 19 distinguished values)'
+BOUND = 'every shipped header and follow-up automaton (captured from the real extract_headers) x every configuration reachable with nesting depth <= 3 (thorough 5) x every token class (each of the ~80 token types Pygments defines x 25 distinguished spellings)'
 RULE = 'real Pattern.consume on every (configuration, token class); failure = ambiguity error; distinct = reachable configurations'
 
 
